@@ -309,6 +309,15 @@ fn node_scenario(a: &[&str]) -> String {
                     w.queue.retain(|x| *x != k);
                     "-".into()
                 }
+                "Q" => {
+                    // Q.<i>.<claims ';'-separated | ->: node i's own claims from now on
+                    let i: u32 = num(p[1]);
+                    let cl: Vec<crate::types::Range> =
+                        if p[2] == "-" { vec![] } else { p[2].split(';').map(|c| claim_str(c).parse().unwrap()).collect() };
+                    let node = w.nodes.get_mut(&i).unwrap();
+                    with_node!(node, n => { n.v_set_claims(cl) });
+                    "-".into()
+                }
                 "M" => {
                     // from now on everything node i sends is lost (1) / gets through again (0)
                     let i: u32 = num(p[1]);
@@ -407,8 +416,9 @@ fn node_scenario(a: &[&str]) -> String {
                         let own: Vec<String> = n.v_own().iter().map(|a| a.port().to_string()).collect();
                         let (np, no) = n.v_sched();
                         let (dr, inv) = n.v_counters();
+                        let rc: Vec<String> = n.v_reconnect().iter().map(|(t, to, nx)| format!("{}:{}:{}", t, to, nx)).collect();
                         format!(
-                            "peers=[{}];pend=[{}];own=[{}];{};np={};no={};drop={};inv={}",
+                            "peers=[{}];pend=[{}];own=[{}];{};np={};no={};drop={};inv={};rc=[{}]",
                             peers.join(","),
                             pend.join(","),
                             own.join(","),
@@ -416,7 +426,8 @@ fn node_scenario(a: &[&str]) -> String {
                             np,
                             no,
                             dr,
-                            inv
+                            inv,
+                            rc.join(",")
                         )
                     })
                 }
